@@ -90,6 +90,30 @@ CHECKS = {
              "quick": B(12000, 15), "thorough": B(400000, 150, 500)},
         ],
     },
+    "C03": {
+        "level": "exploration",
+        "rule": "chaos engine: seeded call sequences over the whole vnacal / vnacal_new / parameter API (plus the vnadata and property entry "
+                "points reachable through it) on live objects, every index / dimension / handle argument drawn from valid, boundary "
+                "(0, n-1, n, n+1, -1) and wild classes, NULL for the documented optional arguments, rectangular and zero-frequency "
+                "calibrations, allocation (libvna and libyaml domain) and stream faults attached to 0-30 % of the operations, three orders "
+                "of the final free calls; plus the invalid-argument-heavy configurations of the model-based engines. Oracles: ASan, UBSan, "
+                "allocation ledger after the matching free functions, failure value for every detectably invalid argument. "
+                "non-trivial = >= 4 distinct operations executed or a calibration added; distinct = plan fingerprint",
+        "assumptions": [
+            "object pointers are always valid (the statement's premise); buffers handed to the library have exactly the stated size (exact heap blocks, so ASan sees any access past a stated count)",
+            "NaN / infinite real arguments are generated but their acceptance is not judged (the manual does not say)",
+            "a handle deleted after a vnacal_new_t used it stays usable in that vnacal_new_t: only handles the library never returned are required to be refused by vnacal_new_add_*",
+            "UBSan checks vla-bound and nonnull-attribute are off (zero-length VLAs, memcpy(NULL, ..., 0) treated as defined); a request above 256 MiB is refused by the simulated allocator",
+        ],
+        "expected_probes": ["invalid_refused", "calibration_added", "applied", "loaded", "session_created", "solve_failed"],
+        "subchecks": [
+            {"check": "C03", "what": "chaos engine over vnacal / vnacal_new / parameters with allocation and stream faults", "quick": B(30000, 40), "thorough": B(3000000, 700, 500)},
+            {"check": "C03.array.faulty", "what": "vnadata histories with boundary indices under allocation faults", "quick": B(15000, 20), "thorough": B(500000, 200, 500)},
+            {"check": "C03.array.files.faulty", "what": "vnadata save / load histories under stream and allocation faults", "quick": B(5000, 20), "thorough": B(150000, 200, 200)},
+            {"check": "C03.doc.faulty", "what": "property-tree histories incl. YAML export / import under allocation (both domains) and stream faults", "quick": B(15000, 20), "thorough": B(500000, 200, 500)},
+            {"check": "C03.cal.store.faulty", "what": "calibration sessions, save / load under faults", "quick": B(1500, 25), "thorough": B(60000, 250, 100)},
+        ],
+    },
     "C11": {
         "level": "exploration",
         "rule": "failure-seeking variants of the document, array, file, calibration and damaged-file workloads: 25-50 % of the generated "
@@ -278,7 +302,6 @@ NOT_APPLICABLE = {
 
 # properties the design claims but whose check is not built yet (listed as not claimed until then)
 PLANNED = {
-    "C03": "check under construction (chaos engine, DESIGN.md section 5); not claimed until it exists",
 }
 
 MANIFEST_TEXT = {
@@ -313,6 +336,13 @@ MANIFEST_TEXT = {
         "design_ref": "DESIGN.md section 5 C06",
         "level_note": "trusts the independent readers (sim/readers.h), ArrayModel and vnaconv_* for the expected parameter forms",
         "technique": "deterministic simulation: simulated disk + restart + stream faults, independent-reader and model oracles",
+    },
+    "C03": {
+        "level_text": "seeded exploration of call sequences with valid, boundary and invalid arguments and injected faults under ASan + UBSan "
+                      "with an allocation ledger; evidence, not proof",
+        "design_ref": "DESIGN.md section 5 C03",
+        "level_note": "memory safety is decided by the sanitizers on the executions explored; leaks by the ledger of library-domain allocations",
+        "technique": "deterministic simulation: seeded API-call sequences over argument-validity classes with allocator / stream fault injection, sanitizer + ledger oracles",
     },
     "C11": {
         "level_text": "seeded exploration of failure-seeking histories: every call's return value, errno class, error-function invocations "
